@@ -1016,3 +1016,66 @@ def sub_ns(c):
     # open known finding: complex_add ignores sub_ns (the line is commented out), the serializer honours it
     c.known_region('C06-sub-ns-not-published', True)
     c.check('response_valid_against_generated_schema', ok, detail=(errs, etree.tostring(payload)[:400]))
+
+
+def _mk_evolved(family):
+    @obligation('C06.emitted_valid_after_evolution.%s' % family, targets=['spyne.model.complex:ComplexModelBase.insert_field',
+                                                                        'spyne.model.complex:ComplexModelBase.append_field',
+                                                                        'spyne.interface.xml_schema.model:complex_add'],
+                bounded="a class with three customised variants (customize, Array member, Mandatory) that receives fields by "
+                        "insert_field (front, middle) and append_field before the application is built",
+                desc="fields added to a class after its variants exist are emitted in the order the published schema "
+                     "declares, whichever variant a value is serialised through")
+    def ob(c):
+        from spyne.model.complex import Mandatory as M
+        P = {'xml': XmlDocument, 'soap11': Soap11, 'soap12': Soap12}[family]
+
+        class Item(ComplexModel):
+            __namespace__ = TNS
+            a = Integer
+            b = Unicode
+        ItemV = Item.customize(min_occurs=1)
+        Arr = Array(Item)
+        ItemM = M(Item)
+        how = c.choose(['insert_front', 'insert_middle', 'append', 'insert_then_append', 'none'], 'evolution')
+        if how in ('insert_front', 'insert_then_append'):
+            Item.insert_field(0, 'first', Integer)
+        if how == 'insert_middle':
+            Item.insert_field(1, 'mid', Unicode)
+        if how in ('append', 'insert_then_append'):
+            Item.append_field('last', Decimal)
+
+        class EHolder(ComplexModel):
+            __namespace__ = TNS
+            plain = Item
+            variant = ItemV
+            mandatory = ItemM
+            many = Arr
+
+        def mk(n):
+            kw = dict(a=n, b='b%d' % n)
+            for k, v in (('first', 10 + n), ('mid', 'm%d' % n), ('last', D('1.5'))):
+                if k in Item._type_info:
+                    kw[k] = v
+            return Item(**kw)
+
+        class ESvc(ServiceBase):
+            @rpc(_returns=EHolder)
+            def get(ctx):
+                return EHolder(plain=mk(1), variant=mk(2), mandatory=mk(3), many=[mk(4), mk(5)])
+        app = Application([ESvc], TNS, name='EApp', in_protocol=P(), out_protocol=P())
+        schema = build_schema(app)
+        body = '<tns:get xmlns:tns="%s"/>' % TNS
+        data = body.encode() if family == 'xml' else soap_env(SOAP11_NS if family == 'soap11' else SOAP12_NS, body)
+        out, seen, resp = _post(c, WsgiApplication(app), data)
+        c.check('status_200', out.returned and bool(seen) and seen[0].startswith('200'), detail=(repr(out), seen, resp[:300]))
+        if not (out.returned and seen and seen[0].startswith('200')):
+            return
+        headers, payload = _payloads(family, resp)
+        ok, errs = _validate(schema, payload)
+        c.check('response_valid_against_generated_schema', ok, detail=(errs, etree.tostring(payload)[:700]))
+    return ob
+
+
+for _f in ('xml', 'soap11'):
+    _mk_evolved(_f)
